@@ -1682,3 +1682,6 @@ func before(b *ssa.BasicBlock, x, y ssa.Instruction) bool {
 	}
 	return ix >= 0 && iy >= 0 && ix < iy
 }
+
+// LockedAt exports the lock-bracket test.
+func LockedAt(ins ssa.Instruction) bool { return lockedAt(ins) }
